@@ -379,4 +379,95 @@ theorem setupFlat_reqs (env : Env) (tx : BatchTx) (hint : Nat)
     rw [show st ++ f p :: List.map f rest = st ++ [f p] ++ List.map f rest by simp]
     exact this
 
+/-! ### lnd's shim registry over re-proposed batches -/
+
+theorem resFoldl_inv {σ α : Type} (f : σ → α → Res σ) (P : σ → Prop)
+    (hstep : ∀ s a s', f s a = .ok s' → P s → P s') (xs : List α) (s0 s : σ)
+    (h0 : P s0) (h : resFoldl f s0 xs = .ok s) : P s := by
+  induction xs generalizing s0 with
+  | nil =>
+    simp [resFoldl] at h
+    subst h
+    exact h0
+  | cons a rest ih =>
+    simp only [resFoldl] at h
+    cases ha : f s0 a with
+    | ok s1 =>
+      simp only [ha, Res.bind] at h
+      exact ih s1 (hstep s0 a s1 ha h0) h
+    | err => simp [ha, Res.bind] at h
+    | panic => simp [ha, Res.bind] at h
+
+theorem lndLookup_append (l : LndShims) (p q : Bytes) (sh : Shim) :
+    lndLookup (l ++ [(p, sh)]) q =
+      match lndLookup l q with
+      | some x => some x
+      | none => if p = q then some sh else none := by
+  induction l with
+  | nil => simp [lndLookup]
+  | cons e rest ih =>
+    obtain ⟨p', s'⟩ := e
+    simp only [List.cons_append, lndLookup]
+    by_cases hp : p' = q
+    · simp [hp]
+    · simp [hp, ih]
+
+/-- every registration of this call is what lnd holds for its pending id, and lnd held nothing for it before -/
+def HeldInv (lnd0 : LndShims) (st : PrepSt) : Prop :=
+  ∀ r, r ∈ st.out.regs → lndLookup st.lnd r.2.1 = some r.1 ∧ lndLookup lnd0 r.2.1 = none
+
+/-- lnd only ever gains entries during `PrepChannelFunding`: what it held before it still holds -/
+def KeepsInv (lnd0 : LndShims) (st : PrepSt) : Prop :=
+  ∀ q sh, lndLookup lnd0 q = some sh → lndLookup st.lnd q = some sh
+
+theorem prepMatchLnd_inv (env : Env) (node : Bytes) (o : Order) (tx : BatchTx) (hint : Nat) (lnd0 : LndShims)
+    (st : PrepSt) (m : MatchedOrder) (st' : PrepSt)
+    (h : prepMatchLnd env node o tx hint st m = .ok st') (hinv : HeldInv lnd0 st ∧ KeepsInv lnd0 st) :
+    HeldInv lnd0 st' ∧ KeepsInv lnd0 st' := by
+  unfold prepMatchLnd at h
+  cases hr : prepRegisters env node o m tx hint with
+  | err => simp [hr, Res.bind] at h
+  | panic => simp [hr, Res.bind] at h
+  | ok r =>
+    simp only [hr, Res.bind] at h
+    cases r with
+    | none =>
+      simp at h
+      subst h
+      exact hinv
+    | some x =>
+      simp only at h
+      unfold lndRegister at h
+      cases hl : lndLookup st.lnd x.2.1 with
+      | some y => simp [hl] at h
+      | none =>
+        simp only [hl] at h
+        simp at h
+        subst h
+        obtain ⟨hheld, hkeeps⟩ := hinv
+        constructor
+        · intro r hr'
+          simp only [List.mem_append, List.mem_singleton] at hr'
+          cases hr' with
+          | inl hin =>
+            obtain ⟨h1, h2⟩ := hheld r hin
+            refine ⟨?_, h2⟩
+            show lndLookup (st.lnd ++ [(x.2.1, x.1)]) r.2.1 = some r.1
+            rw [lndLookup_append, h1]
+          | inr heq =>
+            subst heq
+            refine ⟨?_, ?_⟩
+            · show lndLookup (st.lnd ++ [(r.2.1, r.1)]) r.2.1 = some r.1
+              rw [lndLookup_append, hl]
+              simp
+            · cases h0 : lndLookup lnd0 r.2.1 with
+              | none => rfl
+              | some sh =>
+                have := hkeeps _ _ h0
+                rw [hl] at this
+                simp at this
+        · intro q sh hq
+          show lndLookup (st.lnd ++ [(x.2.1, x.1)]) q = some sh
+          rw [lndLookup_append, hkeeps q sh hq]
+
 end Pool.C17
